@@ -1,4 +1,5 @@
-from typing import Dict, Set, Callable
+from collections import defaultdict
+from typing import DefaultDict, Dict, Set, Callable
 
 from ..types import *
 from ..sim import Environment, ProcessGenerator, SimTime, PriorityStore, PriorityItem
@@ -24,6 +25,10 @@ class WFQ(Scheduler):
         """
         self.active_set: Set[FlowId] = set()
         """The flow_id set of all non-empty subqueue
+        """
+        self.class_count: DefaultDict[FlowId, int] = defaultdict(lambda: 0)
+        """Packets of each class waiting or in transmission (queue_count is kept
+        per flow, and several flows may be mapped onto one class)
         """
         self.vtime: SimTime = 0.0
         """Virtual clock time, the time elasping speed is based
@@ -61,7 +66,8 @@ class WFQ(Scheduler):
             yield env.process(self.send_packet(packet))
             self.update_vtime()
             class_id = self.flow2class(packet.flow_id)
-            if self.queue_count[class_id] == 0:
+            self.class_count[class_id] -= 1
+            if self.class_count[class_id] == 0:
                 self.active_set.remove(class_id)
             if len(self.active_set) == 0:
                 self.reset_vtime()
@@ -80,6 +86,7 @@ class WFQ(Scheduler):
         ) + packet.size * 8.0 / (self.rate * self.weights[class_id])
 
         self.add_packet_to_queue(packet)
+        self.class_count[class_id] += 1
         self.active_set.add(class_id)
         self.last_time = now
 
